@@ -236,7 +236,11 @@ pub fn record(args: &[String]) -> i32 {
             let norm = if rng.chance(1, 2) { head.clone() } else { rand_str(&mut rng) };
             let reading = match rng.below(3) { 0 => head.clone(), 1 => key.clone(), _ => rand_str(&mut rng) };
             let dic = match rng.below(4) { 0 => -1, 1 => i as i64, _ => rng.below(nrows) as i64 };
-            rows.push(GRow { key, head, pos: rng.below(POS_T.len()), norm, reading, dic, a: vec![], b: vec![], ws: vec![], syn: vec![], lid: rng.below(idmax as usize) as i64, rid: rng.below(idmax as usize) as i64, cost: rng.range(-32767, 32767) });
+            // homographs: sometimes a row repeats key, headword, part of speech and reading of an earlier row (cost and other forms differ);
+            // an inline reference that names them means the FIRST such row
+            let twin = if i > 0 && rng.chance(1, 4) { let t = rng.below(i); if rows[t].key == rows[t].head { Some(t) } else { None } } else { None };
+            let (key, head, reading, pos) = match twin { Some(t) => (rows[t].key.clone(), rows[t].head.clone(), rows[t].reading.clone(), rows[t].pos), None => (key, head, reading, rng.below(POS_T.len())) };
+            rows.push(GRow { key, head, pos, norm, reading, dic, a: vec![], b: vec![], ws: vec![], syn: vec![], lid: rng.below(idmax as usize) as i64, rid: rng.below(idmax as usize) as i64, cost: rng.range(-32767, 32767) });
         }
         // references (numeric and inline) and arrays of 0 / few / 127 items
         for i in 0..nrows {
